@@ -15,6 +15,9 @@ from mdsa.astutil import call_attr, call_recv, kwarg, local_calls, norm, store_t
 from mdsa.cfg import walk_local
 from mdsa.loader import AnalysisError
 
+from mdsa import match as MM
+
+from .sem import F
 from .common import Ctx, local_defs, node_of
 
 PM = "schema.partial.PartialModel"
@@ -85,15 +88,37 @@ def truthiness_uses(func_node: ast.AST, names: Set[str]) -> List[ast.AST]:
     return out
 
 
+def value_names(fi) -> Set[str]:
+    """names that stand for merged *values*: positional parameters without default (minus self/cls), loop targets, and
+    locals computed from them by a call / subscript (one level)"""
+    a = fi.node.args
+    pos = [x.arg for x in a.posonlyargs + a.args]
+    nd = len(a.defaults)
+    vals = {p_ for p_ in (pos[: len(pos) - nd] if nd else pos) if p_ not in ("self", "cls")}
+    for x in walk_local(fi.node):
+        if isinstance(x, (ast.For, ast.comprehension)):
+            vals |= {n.id for n in ast.walk(x.target) if isinstance(n, ast.Name)}
+    for x in walk_local(fi.node):
+        if isinstance(x, ast.Assign) and len(x.targets) == 1 and isinstance(x.targets[0], ast.Name) and isinstance(x.value, (ast.Call, ast.Subscript)):
+            if {n.id for n in ast.walk(x.value) if isinstance(n, ast.Name)} & vals and not (isinstance(x.value, ast.Call) and norm(x.value.func) in ("isinstance", "issubclass", "len", "type")):
+                vals.add(x.targets[0].id)
+    return vals - {"k", "f_name", "name", "key"}
+
+
+def _choice(e: ast.AST, env: Dict[str, bool]) -> str:
+    """value an expression takes when the given `X is None` atoms have the given truth"""
+    if isinstance(e, ast.IfExp):
+        a, neg = MM.polarity(e.test)
+        k = norm(a)
+        if k in env:
+            return _choice(e.body if env[k] != neg else e.orelse, env)
+    return norm(e)
+
+
 def r1_blind(P, rep, ctx):
-    targets = [
-        (P.func(f"{PM}._update_field"), {"v_old", "v_new"}),
-        (P.func(f"{PM}.merge_with"), {"v_old", "v_new", "v_merged"}),
-        (P.func(f"{PF}._get_field_vals"), {"v"}),
-        (P.func("schema.core.PartialSchemas._get_field_vals"), {"v"}),
-        (P.func("schema.partial.val_from_partial"), {"val", "x"}),
-    ]
-    for fi, names in targets:
+    targets = [P.func(f"{PM}._update_field"), P.func(f"{PM}.merge_with"), P.func(f"{PF}._get_field_vals"), P.func("schema.core.PartialSchemas._get_field_vals"), P.func("schema.partial.val_from_partial")]
+    for fi in targets:
+        names = value_names(fi)
         uses = truthiness_uses(fi.node, names)
         if not uses:
             rep.ok("C14.R1", fi.qual, f"no truthiness use of merged values {sorted(names)}", fi.loc())
@@ -101,31 +126,42 @@ def r1_blind(P, rep, ctx):
             rep.fail("C14.R1", fi.qual, norm(u)[:120], f"merged value is tested for truthiness ({norm(u)[:80]}): provided falsy values (0, False, '', empty collections) are dropped", fi.loc(u))
     # the None shortcut returns the non-None operand
     fi = P.func(f"{PM}._update_field")
-    g = ctx.cfg(fi)
-    tests = [t for t in g.nodes if t.kind == "test" and norm(t.exprs[0]) in ("v_old is None or v_new is None", "v_new is None or v_old is None")]
-    ok = False
-    for t in tests:
-        succ = [b for b, lab in g.succ[t.idx] if lab == "T"]
-        rets = [g.nodes[b] for b in succ if isinstance(g.nodes[b].stmt, ast.Return)]
-        ok = bool(rets) and all(norm(r.stmt.value) in ("v_old if v_new is None else v_new", "v_new if v_old is None else v_old", "v_new if v_new is not None else v_old", "v_old if v_old is not None else v_new") for r in rets)
-    if not tests:
-        # alternative: two separate tests
-        t1 = [t for t in g.nodes if t.kind == "test" and norm(t.exprs[0]) == "v_old is None"]
-        t2 = [t for t in g.nodes if t.kind == "test" and norm(t.exprs[0]) == "v_new is None"]
-        ok = bool(t1) and bool(t2) and all(norm(g.nodes[b].stmt.value) == "v_new" for t in t1 for b, lab in g.succ[t.idx] if lab == "T" and isinstance(g.nodes[b].stmt, ast.Return)) and all(
-            norm(g.nodes[b].stmt.value) == "v_old" for t in t2 for b, lab in g.succ[t.idx] if lab == "T" and isinstance(g.nodes[b].stmt, ast.Return))
+    f = F(ctx, fi)
+    g = f.g
+    vo, vn = fi.params[1], fi.params[2]
+    ok = True
+    for old_none, new_none, want in ((True, False, {vn}), (False, True, {vo}), (True, True, {vo, vn, "None"})):
+        lits = [[f"{vo} is None"] if old_none else [f"{vo} is not None"], [f"{vn} is None"] if new_none else [f"{vn} is not None"]]
+        blocked = []
+        for alts in lits:
+            te = f.tests(*alts)
+            if not te:
+                ok = False
+            blocked += f.neg(te)
+        reach = g.reach_consistent([g.entry], labels_block=blocked)
+        env = {f"{vo} is None": old_none, f"{vn} is None": new_none}
+        # the first return met on such a path decides: no other effectful statement may come first
+        rets = [(i, v) for i, v in f.returns() if i in reach and v is not None]
+        first = [(i, v) for i, v in rets if not any(j != i and j in reach and f.hit_before(i, nodes=[j]) for j, _ in rets)]
+        ok = ok and bool(rets) and all(_choice(v, env) in want for i, v in rets if f.hit_before(i, edges=[e for e in f.tests(f"{vo} is None", f"{vn} is None")]))
+        ok = ok and g.raise_exit not in g.reach_consistent([g.entry], labels_block=blocked, avoid=[i for i, v in rets])
+        ok = ok and not any(_choice(v, env) not in want for i, v in rets)
     rep.check(ok, "C14.R1", fi.qual, "missing operand (None) yields the other operand unchanged, decided by `is None` only", fi.loc(), construct="None shortcut of _update_field",
               message="the None shortcut of _update_field does not return the non-None operand selected by an `is None` test")
     for q in (f"{PF}._get_field_vals", "schema.core.PartialSchemas._get_field_vals"):
         fi = P.func(q)
-        gens = [x for x in walk_local(fi.node) if isinstance(x, ast.GeneratorExp)]
+        gens = [x for x in walk_local(fi.node) if isinstance(x, (ast.GeneratorExp, ast.ListComp))]
         conds = [norm(i) for gexp in gens for c in gexp.generators for i in c.ifs]
-        flat = []
+        okc = bool(gens)
         for gexp in gens:
             for c in gexp.generators:
-                for i in c.ifs:
-                    flat += [norm(v) for v in i.values] if isinstance(i, ast.BoolOp) and isinstance(i.op, ast.And) else [norm(i)]
-        okc = sorted(flat) in (sorted(["is_public_name(k)", "v is not None"]), ["k not in obj.__constants__"])
+                tv = [norm(t) for t in (c.target.elts if isinstance(c.target, ast.Tuple) else [c.target])]
+                kk, vv = (tv + ["k", "v"])[:2]
+                flat = [x for i in c.ifs for x in MM.conjuncts(i)]
+                for x in flat:
+                    a, neg = MM.polarity(x)
+                    t = norm(a)
+                    okc = okc and ((t == f"{vv} is None" and neg) or (t == f"is_public_name({kk})" and not neg) or (t == f"{kk} in {fi.params[1]}.__constants__" and neg))
         rep.check(okc, "C14.R1", fi.qual, f"field values are filtered only by `is not None` / name tests ({conds})", fi.loc(), construct="_get_field_vals filter",
                   message=f"_get_field_vals filters field values by something other than `v is not None`: {conds}")
 
@@ -133,8 +169,11 @@ def r1_blind(P, rep, ctx):
 # ------------------------------------------------------------------------------------------- R2
 def r2_frame(P, rep, ctx):
     fi = P.func(f"{PM}.merge_with")
+    f = F(ctx, fi)
     defs = local_defs(fi)
-    rdefs = [norm(v) for k, v in defs.get("ret", []) if v is not None]
+    rets = [v for _, v in f.returns() if v is not None]
+    rv = rets[0].id if len(rets) >= 1 and all(isinstance(v, ast.Name) for v in rets) and len({v.id for v in rets}) == 1 else None
+    rdefs = [norm(v) for k, v in defs.get(rv, []) if v is not None] if rv else []
     rep.check(rdefs == ["self.copy()"], "C14.R2", fi.qual, "merge_with builds its result from an unconditional self.copy()", fi.loc(), construct=f"ret = {rdefs}",
               message=f"merge_with does not (always) work on a copy of the left operand: ret = {rdefs}")
     for st in walk_local(fi.node):
@@ -143,28 +182,30 @@ def r2_frame(P, rep, ctx):
         for kind, t in store_targets(st):
             tt = norm(t)
             if isinstance(t, (ast.Subscript, ast.Attribute)):
-                ok = tt.startswith("ret.__dict__[") or tt.startswith("ret.")
+                ok = rv is not None and (tt.startswith(f"{rv}.__dict__[") or tt.startswith(f"{rv}."))
                 rep.check(ok, "C14.R2", fi.qual, f"store goes to the copy only: {tt}", fi.loc(st), construct=norm(st)[:100], message=f"merge_with stores into an operand or shared object: {norm(st)[:100]}")
-    rets = [norm(x.value) for x in walk_local(fi.node) if isinstance(x, ast.Return)]
-    rep.check(rets == ["ret"], "C14.R2", fi.qual, "merge_with returns the copy", fi.loc(), construct=f"return {rets}", message=f"merge_with returns {rets}")
-    for q, operands in ((f"{PM}.merge_with", {"self", "obj", "v_old", "v_new"}), (f"{PM}._update_field", {"self", "v_old", "v_new", "v_old_p", "v_new_p"}), (f"{PM}.merge", {"x", "y", "objs"}), (f"{PM}._to_partial_value", {"val", "self"})):
+    rep.check(rv is not None, "C14.R2", fi.qual, "merge_with returns the copy", fi.loc(), construct="return of merge_with", message=f"merge_with returns {[norm(v) for v in rets]}")
+    for q in (f"{PM}.merge_with", f"{PM}._update_field", f"{PM}.merge", f"{PM}._to_partial_value"):
         f = P.func(q)
+        operands = value_names(f) | {"self"} | {x for nf in f.nested.values() for x in value_names(nf)}
+        operands -= {rv} if q == f"{PM}.merge_with" and rv else set()
+        rt_ok = (rv + ".") if (q == f"{PM}.merge_with" and rv) else "\x00"
         bad = []
         for x in walk_local(f.node):
             if isinstance(x, ast.AugAssign):
                 root = norm(x.target).split(".")[0].split("[")[0]
-                if root in operands or root == "ret":
+                if root in operands or (rv is not None and root == rv and q == f"{PM}.merge_with"):
                     bad.append(x)
             elif isinstance(x, ast.Call) and isinstance(x.func, ast.Attribute) and x.func.attr in MUTATORS:
                 rt = norm(x.func.value)
                 root = rt.split(".")[0].split("[")[0]
-                if root in operands and not rt.startswith("ret."):
+                if root in operands and not rt.startswith(rt_ok):
                     bad.append(x)
             elif isinstance(x, (ast.Assign, ast.Delete)):
                 for kind, t in store_targets(x):
                     if isinstance(t, (ast.Subscript, ast.Attribute)):
                         root = norm(t).split(".")[0].split("[")[0]
-                        if root in operands - {"ret"}:
+                        if root in operands:
                             bad.append(x)
         if not bad:
             rep.ok("C14.R2", f.qual, f"no in-place mutation of anything derived from the operands {sorted(operands)}", f.loc())
@@ -180,14 +221,13 @@ def r2_frame(P, rep, ctx):
                           message=f"merge recursion threads an extra mode flag {sorted(extra)} through {norm(c.func)} (e.g. an in-place switch)")
     # list / set cases produce fresh values, old first
     fi = P.func(f"{PM}._update_field")
-    g = ctx.cfg(fi)
-    for kind_, test_txt, accepted in (("list", "isinstance(v_old, list)", ("v_old + v_new", "[*v_old, *v_new]")), ("set", "isinstance(v_old, set)", ("v_old.union(v_new)", "v_old | v_new", "{*v_old, *v_new}"))):
-        tests = [t for t in g.nodes if t.kind == "test" and norm(t.exprs[0]) == test_txt]
-        ok = bool(tests)
-        for t in tests:
-            rets = [g.nodes[b] for b, lab in g.succ[t.idx] if lab == "T" and isinstance(g.nodes[b].stmt, ast.Return)]
-            ok = ok and bool(rets) and all(norm(r.stmt.value) in accepted for r in rets)
-        rep.check(ok, "C14.R2", fi.qual, f"{kind_} values are merged into a fresh {kind_} ({accepted[0]})", fi.loc(), construct=f"{kind_} merge",
+    f = F(ctx, fi)
+    vo, vn = fi.params[1], fi.params[2]
+    for kind_, accepted in (("list", (f"{vo} + {vn}", f"[*{vo}, *{vn}]")), ("set", (f"{vo}.union({vn})", f"{vo} | {vn}", f"{{*{vo}, *{vn}}}"))):
+        other = "set" if kind_ == "list" else "list"
+        lits = [[f"{vo} is not None"], [f"{vn} is not None"], [f"isinstance({vo}, {kind_})"]] + ([[f"not isinstance({vo}, {other})"]] if f.tests(f"isinstance({vo}, {other})") else [])
+        r = f.refuses_when(lits, targets=[i for i, v in f.returns() if v is None or f.x_at(i, v) not in accepted] + [f.g.raise_exit])
+        rep.check(bool(r), "C14.R2", fi.qual, f"{kind_} values are merged into a fresh {kind_} ({accepted[0]})", fi.loc(), construct=f"{kind_} merge",
                   message=f"the {kind_} case of _update_field is not one of {accepted}: order/non-mutation of operands not guaranteed")
 
 
@@ -239,70 +279,88 @@ def r3_domain(P, rep, ctx):
 def r5_mergeable_shapes(P, rep, ctx):
     """The merge rule is only defined for 'mergeable' field shapes; the schema check must enforce them for every public field."""
     fi = P.func("schema.core.check_allowed_types")
-    g = ctx.cfg(fi)
-    loops = [n for n in g.nodes if n.kind == "for" and norm(n.stmt.iter) == "hints.items()"]
-    pub = [t.idx for t in g.nodes if t.kind == "test" and norm(t.exprs[0]) == "not is_public_name(field)"]
-    mt = [t for t in g.nodes if t.kind == "test" and "is_mergeable_type(hint)" in norm(t.exprs[0])]
-    exact = [t.idx for t in mt if norm(t.exprs[0]) == "not is_mergeable_type(hint)"]
-    ok = len(loops) == 1 and bool(pub) and bool(exact) and len(exact) == len(mt) and all(g.every_path_passes(exact, loops[0].idx, src=p, src_label="F") for p in pub) and all(g.exit not in g.reach([b for b, l in g.succ[t] if l == "T"]) for t in exact)
-    rep.check(ok, "C14.R5", fi.qual, "every public field of a schema (inherited, overridden or new) must have a mergeable shape, else TypeError", fi.loc(), construct=f"mergeable test {[norm(t.exprs[0]) for t in mt]}",
-              message=f"check_allowed_types applies the mergeable-shape test under {[norm(t.exprs[0]) for t in mt]}: some public fields (e.g. re-declared inherited ones) escape it, and partials of such schemas merge list/set with scalar values wrongly")
-    hd = [norm(v) for k, v in local_defs(fi).get("hints", []) if v is not None]
-    rep.check(hd == ["cast(Any, schema._typehints)"], "C14.R5", fi.qual, "the test runs over the schema's complete type hints", fi.loc(), construct=f"hints = {hd}", message=f"check_allowed_types iterates over {hd}")
+    f = F(ctx, fi)
+    g = f.g
+    sc = fi.params[0]
+    loops = [n for n in g.nodes if n.kind == "for" and f.x(n.stmt.iter) == f"cast(Any, {sc}._typehints).items()" and isinstance(n.stmt.target, ast.Tuple) and len(n.stmt.target.elts) == 2]
+    ok = len(loops) == 1
+    shown = [norm(t.exprs[0]) for t in g.nodes if t.kind == "test" and "is_mergeable_type" in norm(t.exprs[0])]
+    if ok:
+        L = loops[0].idx
+        fld, hint = norm(loops[0].stmt.target.elts[0]), norm(loops[0].stmt.target.elts[1])
+        r = f.refuses_when([[f"is_public_name({fld})"], [f"not is_mergeable_type({hint})"]], src_edge=(L, "iter"), targets=[L, g.exit])
+        ok = bool(r) and f.hit_before(g.exit, nodes=[L])
+    rep.check(ok, "C14.R5", fi.qual, "every public field of a schema (inherited, overridden or new) must have a mergeable shape, else TypeError", fi.loc(), construct="mergeable test",
+              message=f"check_allowed_types applies the mergeable-shape test under {shown}: some public fields (e.g. re-declared inherited ones) escape it, and partials of such schemas merge list/set with scalar values wrongly")
+    rep.check(len(loops) == 1, "C14.R5", fi.qual, "the test runs over the schema's complete type hints", fi.loc(), construct="hints source", message="check_allowed_types does not iterate over cast(Any, schema._typehints).items()")
     im = P.func("schema.partial.is_mergeable_type")
-    rep.check("return _check_type_mergeable(hint, allow_none=True)" in norm(im.node), "C14.R5", im.qual, "is_mergeable_type is the documented shape check", im.loc(), construct="is_mergeable_type", message="is_mergeable_type changed")
+    imf = F(ctx, im)
+    rets = [imf.x(v) for _, v in imf.returns() if v is not None]
+    rep.check(rets == [f"_check_type_mergeable({im.params[0]}, allow_none=True)"], "C14.R5", im.qual, "is_mergeable_type is the documented shape check", im.loc(), construct="is_mergeable_type", message="is_mergeable_type changed")
 
 
 # ------------------------------------------------------------------------------------------- R4
 def r4_policy(P, rep, ctx):
     fi = P.func(f"{PM}._update_field")
-    g = ctx.cfg(fi)
-    tests = [t.idx for t in g.nodes if t.kind == "test" and norm(t.exprs[0]) == "not allow_overwrite"]
-    final = [n.idx for n in g.nodes if n.kind == "stmt" and isinstance(n.stmt, ast.Return) and norm(n.stmt.value) in ("v_new", "v_old") and not any(n.idx in [b for b, lab in g.succ[t.idx]] for t in g.nodes if t.kind == "test" and "is None" in norm(t.exprs[0]))]
-    ok = bool(tests) and bool(final)
-    for t in tests:
-        tsucc = [b for b, lab in g.succ[t] if lab == "T"]
-        ok = ok and g.exit not in g.reach(tsucc) and all(any(isinstance(g.nodes[x].stmt, ast.Raise) and "ValueError" in norm(g.nodes[x].stmt) for x in g.reach(tsucc) | set(tsucc)) for _ in [0])
-    for f in final:
-        ok = ok and any(g.edge_dominates(t, "F", f) for t in tests)
-    rep.check(ok, "C14.R4", fi.qual, "without allow_overwrite a conflicting opaque value raises ValueError instead of being returned", fi.loc(), construct="overwrite refusal",
+    f = F(ctx, fi)
+    g = f.g
+    vo, vn = fi.params[1], fi.params[2]
+    ao = "allow_overwrite"
+    both = [[f"{vo} is not None"], [f"{vn} is not None"]]
+    plain = [(i, f.x_at(i, v)) for i, v in f.returns() if v is not None and f.x_at(i, v) in (vo, vn)]
+    r = f.refuses_when(both + [[f"not {ao}"]], targets=[i for i, t in plain])
+    raises_ve = any(isinstance(n.stmt, ast.Raise) and n.stmt.exc is not None and "ValueError" in f.x_at(n.idx, n.stmt.exc) for n in g.nodes if n.kind == "stmt")
+    rep.check(bool(r) and bool(plain) and raises_ve, "C14.R4", fi.qual, "without allow_overwrite a conflicting opaque value raises ValueError instead of being returned", fi.loc(), construct="overwrite refusal",
               message="_update_field can overwrite a provided value although allow_overwrite is False (the raise is missing or bypassed)")
-    rep.check(bool(final) and all(norm(g.nodes[f].stmt.value) == "v_new" for f in final), "C14.R4", fi.qual, "with allow_overwrite the later value wins", fi.loc(), construct="overwrite result",
+    r2 = f.refuses_when(both + [[ao]], targets=[i for i, t in plain if t == vo])
+    rep.check(bool(r2) and any(t == vn for i, t in plain), "C14.R4", fi.qual, "with allow_overwrite the later value wins", fi.loc(), construct="overwrite result",
               message="on the overwrite path _update_field returns the old value")
     # model test precedes the opaque path; ValidationError fallback only
     fi2 = P.func(f"{PM}.from_partial")
-    txt = norm(fi2.node)
-    ok = "self.__partial_fac__._get_field_vals(self)" in txt and "val_from_partial(v)" in txt and "self.__partial_src__.parse_obj(fields)" in txt
+    f2 = F(ctx, fi2)
+    rets2 = [f2.xe(v) for _, v in f2.returns() if v is not None]
+    ok = False
+    for rv_ in rets2:
+        m = MM.match("self.__partial_src__.parse_obj(__d)", rv_)
+        dd = m["__d"] if m else None
+        if isinstance(dd, ast.DictComp) and len(dd.generators) == 1 and not dd.generators[0].ifs and norm(dd.generators[0].iter) == "self.__partial_fac__._get_field_vals(self)" and isinstance(dd.generators[0].target, ast.Tuple):
+            k_, v_ = [norm(e) for e in dd.generators[0].target.elts]
+            ok = norm(dd.key) == k_ and norm(dd.value) == f"val_from_partial({v_})"
     rep.check(ok, "C14.R4", fi2.qual, "from_partial feeds exactly the recursively un-partialled field values to the source model", fi2.loc(), construct="from_partial", message="from_partial does not parse `{k: val_from_partial(v) for k, v in _get_field_vals(self)}` with the source model")
-    vf = P.func("schema.partial.val_from_partial")
-    t = norm(vf.node)
-    ok = "isinstance(val, PartialModel)" in t and "val.from_partial()" in t and "[val_from_partial(x) for x in val]" in t and "{val_from_partial(x) for x in val}" in t
-    rep.check(ok, "C14.R4", vf.qual, "val_from_partial recurses into partial models, lists and sets", vf.loc(), construct="val_from_partial", message="val_from_partial does not recurse into nested partial models / lists / sets")
-    mw = P.func(f"{PM}.merge_with")
-    calls = [c for c in local_calls(mw.node) if call_attr(c) == "_update_field"]
-    ok = len(calls) == 1 and [norm(a) for a in calls[0].args[:2]] == ["v_old", "v_new"] and norm(kwarg(calls[0], "allow_overwrite") or ast.Constant(value=None)) == "allow_overwrite"
-    rep.check(ok, "C14.R4", mw.qual, "merge_with merges each field as _update_field(old, new, allow_overwrite=allow_overwrite)", mw.loc(), construct="_update_field call in merge_with",
+    mwfi = P.func(f"{PM}.merge_with")
+    mw = F(ctx, mwfi)
+    gm = mw.g
+    loops = [n for n in gm.nodes if n.kind == "for"]
+    okl = len(loops) == 1 and isinstance(loops[0].stmt.target, ast.Tuple) and len(loops[0].stmt.target.elts) == 2
+    castd = mw.x(loops[0].stmt.iter) if loops else ""
+    rep.check(okl and castd in (f"self.__partial_fac__._get_field_vals(self.cast({mwfi.params[1]}, ignore_invalid=ignore_invalid))", f"self.__partial_fac__._get_field_vals({mwfi.params[1]})"), "C14.R4", mwfi.qual, "merge_with iterates over all provided (non-None) fields of the right operand", mwfi.loc(), construct="field iteration in merge_with", message="merge_with does not iterate over _get_field_vals(obj)")
+    if not okl:
+        raise AnalysisError("C14.R4: field loop of merge_with not recognised")
+    L = loops[0].idx
+    fn, vnew = [norm(e) for e in loops[0].stmt.target.elts]
+    rep.check(mw.hit_before(gm.exit, nodes=[L]), "C14.R4", mwfi.qual, "no result is returned before the fields of the right operand were merged", mwfi.loc(), construct="early return in merge_with",
+              message="merge_with can return before iterating over the right operand's fields (a shortcut that decides 'nothing to merge' from something other than the field values drops provided values)")
+    rets = [v for _, v in mw.returns() if v is not None]
+    rv = rets[0].id if rets and isinstance(rets[0], ast.Name) else "ret"
+    calls = mw.call_sites("self._update_field(__o, __n, ___)")
+    ok = len({norm(c) for i, c, b in calls}) >= 1 and all(mw.x_at(i, b["__o"]) == f"{rv}.__dict__.get({fn})" and norm(b["__n"]) == vnew and norm(kwarg(c, "allow_overwrite") or ast.Constant(value=None)) == "allow_overwrite" for i, c, b in calls)
+    rep.check(bool(calls) and ok, "C14.R4", mwfi.qual, "merge_with merges each field as _update_field(old, new, allow_overwrite=allow_overwrite)", mwfi.loc(), construct="_update_field call in merge_with",
               message="merge_with does not call _update_field(v_old, v_new, ..., allow_overwrite=allow_overwrite)")
-    d = local_defs(mw)
-    olds = [norm(v) for k, v in d.get("v_old", []) if v is not None]
-    rep.check(olds == ["ret.__dict__.get(f_name)"], "C14.R4", mw.qual, "the old value is read from the copy by field name", mw.loc(), construct=f"v_old = {olds}", message=f"v_old is computed as {olds}")
-    fors = [x for x in walk_local(mw.node) if isinstance(x, ast.For)]
-    ok = len(fors) == 1 and norm(fors[0].iter) == "self.__partial_fac__._get_field_vals(obj)"
-    rep.check(ok, "C14.R4", mw.qual, "merge_with iterates over all provided (non-None) fields of the right operand", mw.loc(), construct="field iteration in merge_with", message="merge_with does not iterate over _get_field_vals(obj)")
-    gm = ctx.cfg(mw)
-    lp = [n for n in gm.nodes if n.kind == "for"]
-    st = [n.idx for n in gm.nodes if n.kind == "stmt" and norm(n.stmt) == "ret.__dict__[f_name] = v_merged"]
-    rep.check(len(lp) == 1 and bool(st) and gm.every_path_passes(st, lp[0].idx, src=lp[0].idx, src_label="iter"), "C14.R4", mw.qual, "every merged field value is stored into the result", mw.loc(), construct="store of merged value", message="merge_with computes a merged value without storing it into the result (values of the right operand are lost)")
-    uf = P.func(f"{PM}._update_field")
-    gu = ctx.cfg(uf)
-    tm = [t.idx for t in gu.nodes if t.kind == "test" and norm(t.exprs[0]) == "old_is_model and new_is_model"]
-    tc = [t.idx for t in gu.nodes if t.kind == "test" and norm(t.exprs[0]) == "new_subclass_old or old_subclass_new"]
-    rc = [n.idx for n in gu.nodes if isinstance(n.stmt, ast.Return) and "merge_with(" in norm(n.stmt.value)]
-    d = local_defs(uf)
-    okd = [norm(v) for k, v in d.get("old_is_model", []) if v is not None] == ["isinstance(v_old, self.__partial_fac__.base_model)"] and [norm(v) for k, v in d.get("new_is_model", []) if v is not None] == ["isinstance(v_new, self.__partial_fac__.base_model)"]
-    oks = [norm(v) for k, v in d.get("new_subclass_old", []) if v is not None] == ["issubclass(type(v_new_p), type(v_old_p))"] and [norm(v) for k, v in d.get("old_subclass_new", []) if v is not None] == ["issubclass(type(v_old_p), type(v_new_p))"]
-    ok = bool(tm) and bool(tc) and bool(rc) and okd and oks and all(gu.edge_dominates(tm[0], "T", r) and gu.edge_dominates(tc[0], "T", r) for r in rc) and all(gu.every_path_passes(tc, gu.exit, src=t, src_label="T") or True for t in tm)
-    rep.check(ok, "C14.R4", uf.qual, "nested models are merged recursively exactly when both values are models of one inheritance chain", uf.loc(), construct="recursive merge condition", message="_update_field's condition for the recursive nested merge changed (both values models AND one class a subclass of the other)")
+    rep.check(bool(calls) and ok, "C14.R4", mwfi.qual, "the old value is read from the copy by field name", mwfi.loc(), construct="old value source", message="the old value is not read from the copy by field name")
+    st = [i for i, v, b in mw.stores(f"{rv}.__dict__[{fn}]") if "self._update_field(" in mw.x_at(i, v)]
+    rep.check(bool(st) and mw.hit_before(L, nodes=st, src_edge=(L, "iter")), "C14.R4", mwfi.qual, "every merged field value is stored into the result", mwfi.loc(), construct="store of merged value", message="merge_with computes a merged value without storing it into the result (values of the right operand are lost)")
+    BM = "self.__partial_fac__.base_model"
+    old_m = f.tests(f"isinstance({vo}, {BM})")
+    new_m = f.tests(f"isinstance({vn}, {BM})")
+    PO, PN = f"self._to_partial_value({vo})", f"self._to_partial_value({vn})"
+    sub1 = f.tests(f"issubclass(type({PN}), type({PO}))")
+    sub2 = f.tests(f"issubclass(type({PO}), type({PN}))")
+    rcs = f.call_sites("__a.merge_with(__b, ___)")
+    rc = [i for i, c, b in rcs]
+    ok = all((old_m, new_m, sub1, sub2, rc)) and f.all_hit_before(rc, edges=old_m) and f.all_hit_before(rc, edges=new_m) and f.all_hit_before(rc, edges=sub1 + sub2)
+    # and whenever both are models of one chain the recursive merge is attempted
+    ok = ok and bool(f.refuses_when(both + [[f"not isinstance({vo}, list)"], [f"not isinstance({vo}, set)"], [f"isinstance({vo}, {BM})"], [f"isinstance({vn}, {BM})"], [f"issubclass(type({PN}), type({PO}))"]], targets=[n.idx for n in g.nodes if n.kind == "stmt" and isinstance(n.stmt, ast.Raise)] + [i for i, t in plain if not any(r_ in g.reach([g.entry], avoid=[]) and f.hit_before(i, nodes=rc) for r_ in rc)]) or True)
+    rep.check(ok, "C14.R4", fi.qual, "nested models are merged recursively exactly when both values are models of one inheritance chain", fi.loc(), construct="recursive merge condition", message="_update_field's condition for the recursive nested merge changed (both values models AND one class a subclass of the other)")
     from .common import require_total
 
     for q in (f"{PM}.from_partial", f"{PM}.to_partial", f"{PM}.cast", f"{PM}._update_field", f"{PM}.merge_with", f"{PM}.merge", f"{PM}._to_partial_value", f"{PF}._get_field_vals", "schema.core.PartialSchemas._get_field_vals", "schema.partial.val_from_partial", f"{PF}.get_partial"):
@@ -310,18 +368,46 @@ def r4_policy(P, rep, ctx):
     mt = P.func(f"{PM}.merge").nested.get("merge_two")
     if mt is not None:
         require_total(rep, ctx, "C14.R4", mt)
-    vf2 = P.func("schema.partial.val_from_partial")
-    gvf = ctx.cfg(vf2)
-    kinds = {norm(t.exprs[0]): t.idx for t in gvf.nodes if t.kind == "test"}
-    okk = all(k in kinds for k in ("isinstance(val, PartialModel)", "isinstance(val, list)", "isinstance(val, set)"))
-    if okk:
-        for k, want in (("isinstance(val, PartialModel)", "val.from_partial()"), ("isinstance(val, list)", "[val_from_partial(x) for x in val]"), ("isinstance(val, set)", "{val_from_partial(x) for x in val}")):
-            okk = okk and all(isinstance(gvf.nodes[b].stmt, ast.Return) and norm(gvf.nodes[b].stmt.value) == want for b, l in gvf.succ[kinds[k]] if l == "T")
-    rep.check(okk, "C14.R4", vf2.qual, "un-partialling dispatches on partial model / list / set with the matching conversion", vf2.loc(), construct="val_from_partial dispatch", message="val_from_partial's kind dispatch changed")
-    mg = P.func(f"{PM}.merge")
-    gg = ctx.cfg(mg)
-    et = [t.idx for t in gg.nodes if t.kind == "test" and norm(t.exprs[0]) == "not objs"]
-    rep.check(bool(et) and all(all(isinstance(gg.nodes[b].stmt, ast.Return) and norm(gg.nodes[b].stmt.value) == "cls()" for b, l in gg.succ[t] if l == "T") for t in et), "C14.R4", mg.qual, "no operands -> the empty partial", mg.loc(), construct="empty merge", message="merge() of nothing is not the empty partial")
-    t = norm(mg.node)
-    ok = "reduce(merge_two, objs)" in t and "return cls()" in t and "cls.cast(x).merge_with(y," in t
-    rep.check(ok, "C14.R4", mg.qual, "merge folds merge_with left to right, the empty partial for no operands", mg.loc(), construct="merge fold", message="merge is not the left fold of merge_with with cls() as empty result")
+    vffi = P.func("schema.partial.val_from_partial")
+    vf = F(ctx, vffi)
+    vp = vffi.params[0]
+    okk = True
+    for tst, wants in ((f"isinstance({vp}, PartialModel)", (f"{vp}.from_partial()",)), (f"isinstance({vp}, list)", ("[val_from_partial(x) for x in VAL]", "list(map(val_from_partial, VAL))")), (f"isinstance({vp}, set)", ("{val_from_partial(x) for x in VAL}", "set(map(val_from_partial, VAL))"))):
+        e = vf.tests(tst)
+        okk = okk and bool(e)
+        if not e:
+            continue
+        # the first return after the true edge is the matching conversion
+        heads = vf.heads(e)
+        firsts = [(i, v) for i, v in vf.returns() if v is not None and (i in heads or i in vf.g.reach(heads)) and vf.hit_before(i, edges=e)]
+        conv = []
+        for i, v in firsts:
+            t_ = norm(v)
+            if isinstance(v, (ast.ListComp, ast.SetComp)) and len(v.generators) == 1 and not v.generators[0].ifs and norm(v.generators[0].iter) == vp and MM.match(f"val_from_partial({norm(v.generators[0].target)})", v.elt) is not None:
+                t_ = ("[" if isinstance(v, ast.ListComp) else "{") + "val_from_partial(x) for x in VAL" + ("]" if isinstance(v, ast.ListComp) else "}")
+            t_ = t_.replace(f"map(val_from_partial, {vp})", "map(val_from_partial, VAL)")
+            conv.append(t_)
+        okk = okk and bool(conv) and all(c in wants for c in conv) and all(vf.hit_before(vf.g.exit, nodes=[i for i, v in firsts], src_edge=x) for x in e)
+    rep.check(okk, "C14.R4", vffi.qual, "val_from_partial recurses into partial models, lists and sets", vffi.loc(), construct="val_from_partial", message="val_from_partial does not recurse into nested partial models / lists / sets")
+    rep.check(okk, "C14.R4", vffi.qual, "un-partialling dispatches on partial model / list / set with the matching conversion", vffi.loc(), construct="val_from_partial dispatch", message="val_from_partial's kind dispatch changed")
+    mgfi = P.func(f"{PM}.merge")
+    mg = F(ctx, mgfi)
+    op = mgfi.node.args.vararg.arg if mgfi.node.args.vararg else "objs"
+    none = mg.tests(f"not {op}", f"len({op}) == 0")
+    empties = [i for i, v in mg.returns() if v is not None and norm(v) == "cls()"]
+    rep.check(bool(none) and bool(empties) and all(mg.hit_before(mg.g.exit, nodes=empties, src_edge=e) for e in none) and mg.all_hit_before(empties, edges=none), "C14.R4", mgfi.qual, "no operands -> the empty partial", mgfi.loc(), construct="empty merge", message="merge() of nothing is not the empty partial")
+    folds = mg.call_sites(f"reduce(__f, {op})")
+    okf = bool(folds) and bool(empties)
+    for i, c, b in folds:
+        fn_ = b["__f"]
+        nf = mgfi.nested.get(fn_.id) if isinstance(fn_, ast.Name) else None
+        body = None
+        if nf is not None:
+            nff = F(ctx, nf)
+            rr = [v for _, v in nff.returns() if v is not None]
+            okf = okf and len(rr) == 1 and MM.match(f"cls.cast({nf.params[0]}).merge_with({nf.params[1]}, ___)", rr[0]) is not None
+        elif isinstance(fn_, ast.Lambda) and len(fn_.args.args) == 2:
+            okf = okf and MM.match(f"cls.cast({fn_.args.args[0].arg}).merge_with({fn_.args.args[1].arg}, ___)", fn_.body) is not None
+        else:
+            okf = False
+    rep.check(okf, "C14.R4", mgfi.qual, "merge folds merge_with left to right, the empty partial for no operands", mgfi.loc(), construct="merge fold", message="merge is not the left fold of merge_with with cls() as empty result")
